@@ -43,6 +43,17 @@ Theorem C12_clientsm_call_terminates : forall p creds back anyport resolve mclis
 Proof. intros. eapply call_bounded; [apply cfg_now_repaired|eassumption]. Qed.
 Print Assumptions C12_clientsm_call_terminates.
 
+(* The response deadline is relative to the START of the wait: however many messages that are not the awaited
+   response arrive, a wait lasts at most what is left of ReadTimeout ([wait_time] is in quarters of it), and a
+   server that keeps talking without ever answering (stale responses, OPTIONS requests, frames while they are
+   allowed, at any pace) gets "request timed out" after exactly that time. Together with call_terminates
+   (number of waits per call) this is "every call returns within its timeouts". *)
+Theorem C12_clientsm_wait_deadline : forall frames evs b,
+  wait_time frames b evs <= b /\
+  (Forall (chatter frames) evs -> wait frames b evs = WErr eTimeout false /\ wait_time frames b evs = b).
+Proof. intros. split; [apply wait_deadline|apply chatter_times_out]. Qed.
+Print Assumptions C12_clientsm_wait_deadline.
+
 (* After the run loop has ended every call returns the stored closeError at once: it consumes no event and
    changes nothing (a Setup the caller skips is reported as skipped). *)
 Theorem C12_clientsm_failure_is_sticky : forall cfg nm rev a c e,
@@ -119,6 +130,14 @@ Example C12_example_validation_rejects :
   exists c, calls (cfg_cur (Some PTCP) false) 2 false [ADescribe; ASetup 0; ASetup 1] (cl_init sc None)
             = Some (c, [0; 0; eInterlInUse]).
 Proof. eexists. vm_compute. reflexivity. Qed.
+
+(* a server that never answers DESCRIBE but sends a stale response every quarter of ReadTimeout, 24 times:
+   the call times out (after 4 of them), it does not wait for the chatter to end *)
+Example C12_example_chatter :
+  let chat := concat (repeat [EvGap 1; EvStale] 24) in
+  exists c, calls (cfg_cur None false) 1 false [ADescribe] (cl_init [(mOptions, [EvResp (rsimple 200)]); (mDescribe, chat)] None)
+            = Some (c, [eTimeout]) /\ wait_time false 4 chat = 4.
+Proof. eexists. vm_compute. split; reflexivity. Qed.
 
 (* the scripts that used to break the client are now answered with plain errors *)
 Example C12_example_F10_now : exists c ks,
